@@ -12,6 +12,7 @@ import io
 import json
 import os
 import re
+import shutil
 from fractions import Fraction
 
 import numpy as np
@@ -135,7 +136,10 @@ def run(R):
         os.makedirs(d)
         nii = os.path.join(d, "v.nii")
         pipeline.write_nifti(nii, arr)
-        out = os.path.join(d, "out")
+        # every dataset of the run is produced at the SAME path (removed in between): the statistics must be
+        # those of the dataset that is there now, not of one seen earlier in this process
+        out = os.path.join(R.tmp, "real-out")
+        shutil.rmtree(out, ignore_errors=True)
         flat = rng.random() < 0.5
         opts = (["--flat"] if flat else []) + (["--no-gzip"] if rng.random() < 0.5 else [])
         steps = [("volume_to_precomputed", ["--generate-info", nii, out]),
@@ -177,12 +181,24 @@ TOTAL = re.compile(r"Total: ([\d,-]+) chunks, ([\d,-]+) directories, raw uncompr
 def _check_info(R, scale_stats, info, real=None, via_cmd=None):
     from neuroglancer_scripts.utils import readable_count
     buf = io.StringIO()
+    snapshot = json.dumps(info, sort_keys=True)
     with contextlib.redirect_stdout(buf), np.errstate(all="ignore"):
         if via_cmd:
             scale_stats.main(["scale-stats", via_cmd])
         else:
             scale_stats.show_scales_info(info)
     lines = buf.getvalue().splitlines()
+    # the caller's info is only read, and asking again gives the same answer
+    buf2 = io.StringIO()
+    with contextlib.redirect_stdout(buf2), np.errstate(all="ignore"):
+        scale_stats.show_scales_info(info)
+    changed = json.dumps(info, sort_keys=True) != snapshot
+    if changed or (not via_cmd and buf2.getvalue().splitlines() != lines):
+        R.violation("show_scales_info modified the info it was given, or a second request on the same info "
+                    "reports other numbers", {"data_type": info["data_type"], "num_channels": info["num_channels"],
+                                               "scales": [[x["key"], x["size"][:3]] for x in info["scales"]]},
+                    {"info_changed": changed, "first": lines[-1:], "second": buf2.getvalue().splitlines()[-1:]})
+        info = json.loads(snapshot)
     itemsize = np.dtype(info["data_type"]).itemsize
     nch = info["num_channels"]
     reqs = []
